@@ -714,12 +714,9 @@ func (viso *VirtualISO) read(buf []byte, off int64) (int64, error) {
 				offset += sizeBytes(n)
 			}
 
-			// fill remaining space with zeroes
-			if fileItem.size%sectorSize > 0 && remain > 0 {
-				toWrite := sectorSize - fileItem.size%sectorSize
-				if remain < toWrite {
-					remain = toWrite
-				}
+			// fill remaining space (up to the end of the file's last sector) with zeroes
+			if paddedEnd := fileItem.rLBA.bytes() + fileItem.size.sectors().bytes(); offset < paddedEnd && remain > 0 {
+				toWrite := min(remain, paddedEnd-offset)
 
 				for i := sizeBytes(0); i < toWrite; i++ {
 					buf[i] = 0
